@@ -19,6 +19,7 @@ import (
 	"github.com/zilliztech/milvus-cdc/core/verifkit/ev"
 	"github.com/zilliztech/milvus-cdc/core/verifkit/fakemq"
 	"github.com/zilliztech/milvus-cdc/core/verifkit/sched"
+	"github.com/zilliztech/milvus-cdc/server/metrics"
 	"github.com/zilliztech/milvus-cdc/server/model/meta"
 	"github.com/zilliztech/milvus-cdc/server/model/request"
 )
@@ -33,6 +34,8 @@ type fsSnapshot struct {
 	Stored map[string]meta.TaskState
 	StoredReason map[string]string
 	Published map[string]int
+	API       map[string]string // task -> state reported by List
+	Gauge     map[string]string // task -> state gauge that counts it ("" = none, "A+B" = two)
 }
 
 type fsExec struct {
@@ -51,8 +54,19 @@ func (x *fsExec) snapshot() {
 		s.Reason[id] = ti.Reason
 	}
 	// the API view
+	s.API, s.Gauge = map[string]string{}, map[string]string{}
+	gi, gr, gp := metrics.VerifTaskNum()
+	for st, ids := range map[string][]string{"Initial": gi, "Running": gr, "Paused": gp} {
+		for _, id := range ids {
+			if s.Gauge[id] != "" {
+				s.Gauge[id] += "+"
+			}
+			s.Gauge[id] += st
+		}
+	}
 	if resp, err := x.cur.cdc.List(&request.ListRequest{}); err == nil {
 		for _, t := range resp.Tasks {
+			s.API[t.TaskID] = t.State
 			if string(s.States[t.TaskID].String()) != t.State {
 				s.Reason[t.TaskID] += " <api-disagrees:" + t.State + ">"
 			}
@@ -551,6 +565,30 @@ func (x *fsExec) check() (viol []sched.Violation, summary string, nontrivial boo
 			prev[id] = st
 		}
 	}
+	// C11 on the full stack: at every quiescent point the four views of every task's state agree
+	for _, s := range x.snaps {
+		for _, t := range x.sc.Tasks {
+			mem, okm := s.States[t.ID]
+			if !okm {
+				continue
+			}
+			views := fmt.Sprintf("memory=%v stored=%v api=%s gauge=%s", mem, s.Stored[t.ID], s.API[t.ID], s.Gauge[t.ID])
+			if s.Stored[t.ID] != mem || s.API[t.ID] != mem.String() || s.Gauge[t.ID] != mem.String() {
+				which := ""
+				if s.Stored[t.ID] != mem {
+					which += "+stored"
+				}
+				if s.API[t.ID] != mem.String() {
+					which += "+api"
+				}
+				if s.Gauge[t.ID] != mem.String() {
+					which += "+gauge"
+				}
+				add("C11/fullstack/state-disagree/"+which[1:], "at the quiescent point after event %d task %s: %s", s.At, t.ID, views)
+				break
+			}
+		}
+	}
 	final := "?"
 	if len(x.snaps) > 0 {
 		var parts []string
@@ -947,6 +985,18 @@ func TestVerifC03Resume(t *testing.T) {
 	}
 	res.Rule = "full-stack harness of C05 (crash before / after every visible step, write and store failures, manual pause, restart from the persisted checkpoints, skewed streams sharing a downstream channel); oracle over the packs the downstream ACCEPTED on each channel, in order, across all incarnations: closing ticks never decrease, every data message is above every earlier accepted pack's closing tick and not above its own"
 	fsExplore(t, res, "C03", bound, fsC05Scenarios(ev.Thorough()), 150*time.Second)
+}
+
+func TestVerifC11Fullstack(t *testing.T) {
+	res := ev.New("C11", "fullstack")
+	defer res.Write()
+	fsKeep = []string{"C11/"}
+	bound := 2
+	if ev.Thorough() {
+		bound = 3
+	}
+	res.Rule = "the full-stack failure scenarios of C06 (downstream rejects writes once / repeatedly / twice, store rejects a checkpoint, downstream rejects a drop, unknown partition; 1 task, 2 tasks on one target, 2 tasks on two targets; resume at quiescence, final clean restart) and the crash / pause scenarios of C05 under every schedule within the deviation bound; at every quiescent point the state of every task in memory, in the store, through the list API and in the per-state gauges must be the same"
+	fsExplore(t, res, "C11", bound, append(fsC06Scenarios(ev.Thorough()), fsC05Scenarios(ev.Thorough())...), 150*time.Second)
 }
 
 func TestVerifC06Failure(t *testing.T) {
